@@ -252,7 +252,7 @@ def main(tier, seed):
         sites = translate()
         run.obligation("translate:seeding call sites in tempest/*", True)
         run.extra["seed_sites"] = [list(map(str, s)) for s in sites]
-    except TranslateError as e:
+    except Exception as e:  # fail closed: anything the translator cannot digest
         run.obligation("translate:seeding call sites in tempest/*", False, str(e))
     run.prove("Props/C09.v", link_rels=["Link/Seeding.v"])
     try:
